@@ -113,6 +113,7 @@ var urlFields = map[string]defMap{
 		"r": {Kind: "rel", To1: true, TT: "tb"}, "rs": {Kind: "rel", To1: false, TT: "tb"}, "t": {Kind: "rel", To1: true, TT: "td"}},
 	"tb": {"z": {Kind: "attr", K: "string"}, "q": {Kind: "rel", To1: true, TT: "ta"}, "s": {Kind: "rel", To1: false, TT: "ta"}},
 	"tc": {},
+	"e":  {"v": {Kind: "attr", K: "string"}},
 	"td": {"w": {Kind: "attr", K: "string"}, "q": {Kind: "rel", To1: true, TT: "tb"}},
 }
 
@@ -156,7 +157,7 @@ func urlSchema(impl string) *jsonapi.Schema {
 
 func buildURLSchema(impl string) *jsonapi.Schema {
 	s := &jsonapi.Schema{}
-	for _, name := range []string{"ta", "tb", "tc", "td"} {
+	for _, name := range []string{"ta", "tb", "tc", "td", "e"} {
 		if impl == "wrap" {
 			typ, err := jsonapi.BuildType(reflect.New(structType(name, urlFields[name], kindMap{})).Interface())
 			must(err)
